@@ -1,6 +1,496 @@
-import Asts.Spec.Sync
+import Asts.Proofs.SY_c_Prefix
+import Asts.Proofs.SY_c_Retry
+import Asts.Proofs.SY_c_Bridge
+import Asts.Proofs.SY_c_World
+import Asts.Proofs.L1_a_Final
 
-/-! # C09 — property theorems (under construction) -/
+/-! # C09 — a failure or crash at any API call is reported, harmless, and recoverable
+
+Property theorems only; the lemmas live in `Asts/Proofs/SY_c_*.lean`. `syncF h i plan` is the model (`Model/Sync`) of one
+`StatefulSetController.sync` + `UpdateStatefulSet` under the fault plan `plan` (any number of faults; a fault names a call
+key and an occurrence number); `C09reported` is the monitor of `Spec/Sync.lean`. Everything holds for every hashing
+(colliding ones included), every store, every pod list, every plan; no size bounds.
+
+Vocabulary (`Proofs/SY_c_Base`, `SY_c_Events`):
+* `planAt plan k occ` — the fault the plan assigns to the `occ`-th call with key `k`; `cnt log k` — occurrences of `k`;
+* `events plan log` — the log read back with the fault that fired at each entry (what `Tr.call` returned when the entry was
+  appended, and what `annotate` of the spec recomputes: `annotate_events`);
+* `Benign cx prev ev` — the failure at event `ev` (if any) is one the code swallows ON PURPOSE: Conflict on `updatestatus`,
+  on `update:rev:*` (renumbering) or on `update:pod:*` (absorbed by a retry loop), NotFound on `patch:pod:*`, Invalid on the
+  release patch of a pod the set controls, AlreadyExists on `create:rev:*`, anything on the `get:rev:n` that directly
+  follows a failed `update:rev:n`; `cx.exempt` are keys left out of the judgement, `cx.nameOk` certifies object names;
+* `BenignFrom cx plan n log` — every fault that fired at a position `≥ n` of `log` is benign.
+  "A non-benign fault firing in this phase makes the phase fail" is, contrapositively,
+  `phase succeeded → BenignFrom cx plan (length of the log before the phase) (log after the phase)`.
+
+Hypotheses of the headline, and why:
+* `NamesOk h i` — object names (pods, stored revisions, every name the hashing can produce) contain no `':'`, and the pods
+  of the snapshot have pairwise different names. The monitor parses the call keys back with `splitOn ":"` and identifies a
+  pod by its name; with a `':'` in a name `C09reported` is really false on a benign NotFound (the key no longer parses).
+* `PodCtlFree plan` — the plan injects nothing into pod-control calls (`create:pod:*`, `delete:pod:*`, `update:pod:*`).
+  Those calls are not made through the trace: the model hands `updateStatefulSet` the reconcile-level `Faults` computed by
+  `podFaults`, which translates only plan entries with occurrence 0 whose ordinal it can recover (a pod of that name in the
+  snapshot, or an ordinal below 64). Outside that the MODEL (not necessarily the code) swallows the fault — two evaluated
+  counterexamples to the unrestricted statement are recorded at the end of this file. For these calls the theorem is
+  `reconcile_hit_err` / `reconcile_err_iff_last_hit`, on `Faults`: a pod-control call that fails ends the reconcile `.err`.
+
+Recovery ("once calls stop failing the system reaches the same final state") is C02's convergence from the state left
+behind and is not attempted here: `World.round` applies the fault plan in round 1 only and the `world` engine monitors
+`C09.recovers`. -/
 namespace Asts.C09
+open Asts.SYc
+
+/-! ## (i) reported -/
+
+/-- **C09 reported — the monitor is true on the model** for every hashing, world and plan without pod-control faults. -/
+theorem C09_reported (h : Hashing) (i : SyncIn) (plan : List Fault) (hn : NamesOk h i) (hfree : PodCtlFree plan) :
+    C09reported i plan (syncF h i plan).observe = true :=
+  C09reported_holds h i plan hn hfree
+
+/-- `Prop` reading of the headline: in a sync that does not report failure (success — or a panic, C15's subject), the fault
+    (if any) that fired at any position of the call log is on the benign list. `pre.getLast?` is the event just before. -/
+theorem reported_prop (h : Hashing) (i : SyncIn) (plan : List Fault) (hn : NamesOk h i) (hfree : PodCtlFree plan)
+    (hok : (syncF h i plan).outcome ≠ .err) {pre post : List Ev} {x : Ev}
+    (hx : events plan (syncF h i plan).log = pre ++ x :: post) : Benign (cx0 i) pre.getLast? x :=
+  syncF_benign (cx0 i) plan h i rfl hn.pods hn.hash hn.store
+    (fun _ hk => Or.inr (fun f hf e => hfree f hf (e ▸ hk))) hok pre x post hx (Nat.zero_le _)
+
+/-- the same, contrapositively — **a fault that fired and is not benign makes the sync end `.err`** (so that the key is
+    re-queued): `x` is the event at some position of the log, `x.2 = some kind` the fault that fired there. -/
+theorem nonbenign_fault_is_reported (h : Hashing) (i : SyncIn) (plan : List Fault) (hn : NamesOk h i)
+    (hfree : PodCtlFree plan) {pre post : List Ev} {x : Ev}
+    (hx : events plan (syncF h i plan).log = pre ++ x :: post) (hbad : ¬ Benign (cx0 i) pre.getLast? x) :
+    (syncF h i plan).outcome = .err := by
+  by_contra hne
+  exact hbad (reported_prop h i plan hn hfree hne hx)
+
+/-- a fault fires exactly where a plan entry matches key and occurrence number; and the event at a position of the log is
+    the entry there with the plan's verdict for its occurrence number among the entries before -/
+theorem fired_iff_plan_entry (plan : List Fault) (k : String) (occ : Nat) :
+    (planAt plan k occ).isSome = true ↔ ∃ f ∈ plan, f.key = k ∧ f.occ = occ :=
+  planAt_isSome_iff plan k occ
+
+theorem event_at_position (plan : List Fault) (a : List String) (k : String) (b : List String) :
+    events plan (a ++ k :: b) = events plan a ++ (k, planAt plan k (cnt a k)) :: eventsFrom plan (a ++ [k]) b :=
+  events_at plan a k b
+
+/-- **C09 reported, in the words of the property**: if the log of the sync is `a ++ k :: b`, some plan entry matches the
+    call `k` at that position (same key, occurrence number = number of earlier calls with that key) — i.e. the fault
+    fired — and the failure is not one of the benign ones, then the sync ends `.err`. -/
+theorem fired_nonbenign_fault_err (h : Hashing) (i : SyncIn) (plan : List Fault) (hn : NamesOk h i)
+    (hfree : PodCtlFree plan) {a b : List String} {k : String} (hlog : (syncF h i plan).log = a ++ k :: b)
+    (hbad : ¬ Benign (cx0 i) (events plan a).getLast? (k, planAt plan k (cnt a k))) :
+    (syncF h i plan).outcome = .err := by
+  refine nonbenign_fault_is_reported h i plan hn hfree (pre := events plan a)
+    (post := eventsFrom plan (a ++ [k]) b) ?_ hbad
+  rw [hlog, events_at]
+
+/-- **every plan, no hypothesis at all**: in a sync that returns success, every fault that fired at a call other than a
+    pod-control call is benign (the pod-control keys are exempt; `reconcile_hit_err` is the statement about them). -/
+theorem reported_any_plan (h : Hashing) (i : SyncIn) (plan : List Fault) (hok : (syncF h i plan).outcome ≠ .err) :
+    BenignFrom ⟨i.pods, IsPodCtlKey, fun _ => True⟩ plan 0 (syncF h i plan).log :=
+  syncF_benign ⟨i.pods, IsPodCtlKey, fun _ => True⟩ plan h i rfl (fun _ _ => trivial) (fun _ _ => trivial)
+    (fun _ _ => trivial) (fun _ hk => Or.inl hk) hok
+
+/-- the monitor recomputes exactly the faults the model saw: `annotate` = `events` with the keys parsed -/
+theorem annotate_is_events (plan : List Fault) (log : List String) :
+    (annotate plan log).map (fun x => (x.1, x.2.2)) = (events plan log).map (fun ev => (parseEntry ev.1, ev.2)) :=
+  annotate_events plan log
+
+/-- every call of the model is logged with the fault the plan assigns to it at that moment -/
+theorem call_is_logged (t : Tr) (plan : List Fault) (k : String) :
+    (t.call plan k).1.log = t.log ++ [k] ∧ (t.call plan k).2 = planAt plan k (cnt t.log k) ∧
+    events plan (t.call plan k).1.log = events plan t.log ++ [(k, (t.call plan k).2)] :=
+  ⟨rfl, rfl, events_snoc plan t.log k⟩
+
+/-! ### phase by phase: a non-benign fault firing in a phase makes that phase fail
+
+Each statement: the phase's log extends the log before it, and if the phase reports success then every fault that fired
+*in this phase* (positions `≥` the length of the log before) is benign — for the phases with no intended swallowing that
+means no fault fired at all. -/
+
+/-- `ListRevisions` (two List calls): any failure fails it -/
+theorem phase_listRevs (cx : Cx) (plan : List Fault) (s : RevSt) (hok : (listRevsF plan s).2 ≠ none) :
+    s.tr.log <+: (listRevsF plan s).1.tr.log ∧
+    BenignFrom cx plan s.tr.log.length (listRevsF plan s).1.tr.log :=
+  ⟨(listRevsF_spec cx plan 0 s).2.1, (listRevsF_spec cx plan s.tr.log.length s).2.2.2 (benignFrom_len cx plan _) hok⟩
+
+/-- `adoptOrphanRevisions`: listing, label-sync Updates, the uncached Get of the set, adoption Patches — any failure fails it -/
+theorem phase_adoptRevisions (cx : Cx) (plan : List Fault) (del : Bool) (fresh : Fresh) (s : RevSt)
+    (hok : (adoptOrphanRevisionsF plan del fresh s).2 = .ok) :
+    s.tr.log <+: (adoptOrphanRevisionsF plan del fresh s).1.tr.log ∧
+    BenignFrom cx plan s.tr.log.length (adoptOrphanRevisionsF plan del fresh s).1.tr.log :=
+  ⟨adopt_prefix plan del fresh s, adopt_benign cx plan _ del fresh s (benignFrom_len cx plan _) hok⟩
+
+/-- `ClaimPods`: only NotFound on a patch and Invalid on a release patch are swallowed; a failed uncached Get of the set, or
+    any other patch failure, marks the claim as failed (and the sync then returns an error) -/
+theorem phase_claimPods (cx : Cx) (plan : List Fault) (del : Bool) (fresh : Fresh) (tr : Tr)
+    (hnm : ∀ c ∈ cx.pods, cx.nameOk c.name) (hok : (claimPodsF plan del fresh cx.pods tr).failed = false) :
+    tr.log <+: (claimPodsF plan del fresh cx.pods tr).tr.log ∧
+    BenignFrom cx plan tr.log.length (claimPodsF plan del fresh cx.pods tr).tr.log :=
+  ⟨claim_prefix plan del fresh cx.pods tr, claim_benign cx plan _ del fresh tr hnm (benignFrom_len cx plan _) hok⟩
+
+/-- `updateControllerRevision` (renumbering): only Conflicts, each with its refreshing Get, are absorbed -/
+theorem phase_renumber (cx : Cx) (plan : List Fault) (name : String) (m : Int) (hnm : cx.nameOk name) (fuel : Nat)
+    (s : RevSt) (hok : (renumberF plan name m fuel s).2 = true) :
+    s.tr.log <+: (renumberF plan name m fuel s).1.tr.log ∧
+    BenignFrom cx plan s.tr.log.length (renumberF plan name m fuel s).1.tr.log :=
+  ⟨renumberF_prefix plan name m fuel s, renumberF_benign cx plan _ name m hnm fuel s (benignFrom_len cx plan _) hok⟩
+
+/-- `createControllerRevision`: only AlreadyExists on the Create is absorbed (the following Get must succeed) -/
+theorem phase_createRevision (cx : Cx) (plan : List Fault) (h : Hashing) (fresh : Rev)
+    (hh : ∀ d c, cx.nameOk (h.nameOf d c)) (fuel : Nat) (cc : Int) (s : RevSt)
+    (hok : (createRevLoopF h plan fresh fuel cc s).2 ≠ none) :
+    s.tr.log <+: (createRevLoopF h plan fresh fuel cc s).1.tr.log ∧
+    BenignFrom cx plan s.tr.log.length (createRevLoopF h plan fresh fuel cc s).1.tr.log :=
+  ⟨createRevLoopF_prefix plan h fresh fuel cc s,
+   createRevLoopF_benign cx plan _ h fresh hh fuel cc s (benignFrom_len cx plan _) hok⟩
+
+/-- `getStatefulSetRevisions` as a whole -/
+theorem phase_getRevisions (cx : Cx) (plan : List Fault) (h : Hashing) (template scr : String) (cc0 : Int)
+    (revs : List Rev) (s : RevSt) (hh : ∀ d c, cx.nameOk (h.nameOf d c)) (hrevs : ∀ r ∈ revs, cx.nameOk r.name)
+    (hok : (getRevisionsF h plan template scr cc0 revs s).2 ≠ none) :
+    s.tr.log <+: (getRevisionsF h plan template scr cc0 revs s).1.tr.log ∧
+    BenignFrom cx plan s.tr.log.length (getRevisionsF h plan template scr cc0 revs s).1.tr.log :=
+  ⟨getRevisionsF_prefix plan h template scr cc0 revs s,
+   getRevisionsF_benign cx plan _ h template scr cc0 revs s hh hrevs (benignFrom_len cx plan _) hok⟩
+
+/-- the reconcile: a pod-control call (create / delete / update of a pod) that is among the failing ones ends it `.err` -/
+theorem reconcile_hit_err (v : SetView) (cur upd : String) (pods : List Pod) (f : Faults) (a : Action)
+    (ha : a ∈ (updateStatefulSet v cur upd pods f).1.acts) (hh : hitAct f a = true) :
+    (updateStatefulSet v cur upd pods f).2 = .err :=
+  updateStatefulSet_hit_err v cur upd pods f a ha hh
+
+/-- and exactly so: `.ok` ⇒ no performed call failed; `.err` ⇒ the last performed call failed and no earlier one did (this is
+    why `actsDone = acts.length - 1` on error); a panic performs nothing -/
+theorem reconcile_err_iff_last_hit (v : SetView) (cur upd : String) (pods : List Pod) (f : Faults) :
+    match (updateStatefulSet v cur upd pods f).2 with
+    | .ok => Clean f (updateStatefulSet v cur upd pods f).1.acts
+    | .err => ∃ l a, (updateStatefulSet v cur upd pods f).1.acts = l ++ [a] ∧ Clean f l ∧ hitAct f a = true
+    | .panic _ => (updateStatefulSet v cur upd pods f).1.acts = [] :=
+  updateStatefulSet_hits v cur upd pods f
+
+/-- the status write: only Conflicts are absorbed -/
+theorem phase_statusWrite (cx : Cx) (plan : List Fault) (gone : Bool) (fuel : Nat) (t : Tr)
+    (hok : (statusWriteF plan gone fuel t).2 = true) :
+    t.log <+: (statusWriteF plan gone fuel t).1.log ∧
+    BenignFrom cx plan t.log.length (statusWriteF plan gone fuel t).1.log :=
+  ⟨statusWriteF_prefix plan gone fuel t, statusWriteF_benign cx plan _ gone fuel t (benignFrom_len cx plan _) hok⟩
+
+/-- `truncateHistory`: any failed Delete fails it -/
+theorem phase_truncate (cx : Cx) (plan : List Fault) (limit : Option Int) (podRevs : List String) (revs : List Rev)
+    (cur upd : Rev) (s : RevSt) (hok : (truncateF plan limit podRevs revs cur upd s).2 ≠ .err) :
+    s.tr.log <+: (truncateF plan limit podRevs revs cur upd s).1.tr.log ∧
+    BenignFrom cx plan s.tr.log.length (truncateF plan limit podRevs revs cur upd s).1.tr.log :=
+  ⟨truncateF_prefix plan limit podRevs revs cur upd s,
+   truncateF_benign cx plan _ limit podRevs revs cur upd s (benignFrom_len cx plan _) hok⟩
+
+/-! ## (ii) retry bounds -/
+
+/-- the renumbering Update is attempted at most 4 times (each failed attempt followed by one refreshing Get, nothing else) -/
+theorem renumber_at_most_4 (plan : List Fault) (name : String) (n : Int) (s : RevSt) :
+    ∃ ext, (renumberF plan name n 4 s).1.tr.log = s.tr.log ++ ext ∧
+      cnt ext (kUpdateRev name) ≤ 4 ∧ ext.length ≤ 8 ∧ ∀ e ∈ ext, e = kUpdateRev name ∨ e = kGetRev name :=
+  renumberF_at_most_4 plan name n s
+
+/-- it succeeds iff one of the first 4 attempts is unfaulted and all earlier ones answered Conflict; attempt `j` is the
+    `(c₀ + j)`-th call with key `update:rev:<name>`, `c₀` = number of such calls logged before -/
+theorem renumber_ok_iff (plan : List Fault) (name : String) (n : Int) (s : RevSt) :
+    (renumberF plan name n 4 s).2 = true ↔
+      RetryOk (fun j => planAt plan (kUpdateRev name) (cnt s.tr.log (kUpdateRev name) + j)) 4 :=
+  renumberF_ok_iff plan name n 4 s
+
+/-- the status Update is attempted at most 5 times and nothing else is called -/
+theorem statusWrite_at_most_5 (plan : List Fault) (gone : Bool) (t : Tr) :
+    ∃ m, m ≤ 5 ∧ (statusWriteF plan gone 5 t).1.log = t.log ++ List.replicate m "updatestatus" :=
+  statusWriteF_at_most_5 plan gone t
+
+/-- it succeeds iff the object still exists and one of the first 5 attempts is unfaulted with all earlier ones Conflict -/
+theorem statusWrite_ok_iff (plan : List Fault) (gone : Bool) (t : Tr) :
+    (statusWriteF plan gone 5 t).2 = true ↔
+      gone = false ∧ RetryOk (fun j => planAt plan "updatestatus" (cnt t.log "updatestatus" + j)) 5 :=
+  statusWriteF_ok_iff plan gone 5 t
+
+/-- a pod Update is attempted at most 4 times; it succeeds iff a Conflict-only prefix ends in an unfaulted attempt; every
+    attempt but the last answered Conflict -/
+theorem updateAttempts_bounds (plan : List Fault) (key : String) :
+    (updateAttempts plan key 4 0).1 ≤ 4 ∧
+    ((updateAttempts plan key 4 0).2 = true ↔ RetryOk (fun j => planAt plan key j) 4) ∧
+    (∀ j, j + 1 < (updateAttempts plan key 4 0).1 → planAt plan key j = some ErrKind.conflict) := by
+  have h := updateAttempts_spec plan key 4 0
+  refine ⟨by omega, ?_, fun j hj => h.2.2.2.1 j (Nat.zero_le _) hj⟩
+  have := h.2.2.1
+  simpa using this
+
+/-! ## (iii) a crash is a prefix, and prefixes are safe
+
+A process that dies at call `k` has issued exactly the first `k` calls. The list-level safety monitors are prefix-closed, so
+the main safety theorems (Props/C01, C03, C04, C10, C11 — stated for full runs) give the safety of every partial run. -/
+
+/-- the log of a run cut at call `k` -/
+def crashAt (k : Nat) (o : SyncObs) : SyncObs := { o with log := o.log.take k }
+
+theorem C01creates_prefix_closed (v : SetView) (a b : List OAct) (h : C01creates v (a ++ b) = true) :
+    C01creates v a = true := C01creates_prefix v a b h
+
+theorem C04_prefix_closed (v : SetView) (pods : List Pod) (a b : List OAct) (h : C04 v pods (a ++ b) = true) :
+    C04 v pods a = true := C04_prefix v pods a b h
+
+/-- a partial run is judged as one that did not end well (`outOk := false`): its last delete of a Failed/Succeeded pod may
+    stand without the replacing create -/
+theorem C03_prefix_closed (v : SetView) (upd : String) (pods : List Pod) (a b : List OAct) (outOk : Bool)
+    (h : C03 v upd pods (a ++ b) outOk = true) : C03 v upd pods a false = true := C03_prefix v upd pods a b outOk h
+
+theorem C05_prefix_closed (v : SetView) (pods : List Pod) (a b : List OAct) (h : C05 v pods (a ++ b) = true) :
+    C05 v pods a = true := C05_prefix v pods a b h
+
+theorem C07_prefix_closed (v : SetView) (cur upd : String) (pods : List Pod) (a b : List OAct)
+    (h : C07 v cur upd pods (a ++ b) = true) : C07 v cur upd pods a = true := C07_prefix v cur upd pods a b h
+
+/-- **partial work is safe** (reconcile level): whatever number `k` of its pod-control calls a reconcile got to issue —
+    because a call failed or the process died — the calls issued satisfy C01 (d), C03 (judged as a run that did not end
+    well) and C04. Composition of the full-run theorems (Props/C01, C03, C04) with prefix-closure; every fault plan. -/
+theorem partial_reconcile_safe (v : SetView) (cur upd : String) (pods : List Pod) (f : Faults)
+    (hcr : pods.all Pod.created = true) (hids : IdsOk pods) (k : Nat) :
+    C01creates v ((observe (updateStatefulSet v cur upd pods f).1.acts).take k) = true ∧
+    C03 v upd pods ((observe (updateStatefulSet v cur upd pods f).1.acts).take k) false = true ∧
+    C04 v pods ((observe (updateStatefulSet v cur upd pods f).1.acts).take k) = true := by
+  generalize hA : observe (updateStatefulSet v cur upd pods f).1.acts = A
+  have e := List.take_append_drop k A
+  refine ⟨C01creates_prefix v (A.take k) (A.drop k) ?_,
+    C03_prefix v upd pods (A.take k) (A.drop k) ((updateStatefulSet v cur upd pods f).2 == .ok) ?_,
+    C04_prefix v pods (A.take k) (A.drop k) ?_⟩
+  · rw [e, ← hA]; exact C01creates_holds_gen v cur upd pods f
+  · rw [e, ← hA]; exact C03_holds_gen v cur upd pods f hids
+  · rw [e, ← hA]; exact C04_holds_gen v cur upd pods f hcr hids
+
+/- The same composition gives C05 / C07 for partial runs from `C05_holds_total` / `C07_holds_total` and
+   `C05_prefix_closed` / `C07_prefix_closed`; it is not stated here because the lemma files `L1_a_*` and `L1_b_*` cannot be
+   imported into one module (both define `Asts.PrepInv`). -/
+
+/-- the per-action conditions of `allWithContext` monitors in general -/
+theorem allWithContext_prefix_closed {p q : List OAct → OAct → Option OAct → Bool}
+    (hsame : ∀ before x nx, p before x (some nx) = true → q before x (some nx) = true)
+    (hcut : ∀ before x nx, p before x nx = true → q before x none = true)
+    (a b before : List OAct) (h : allWithContext p before (a ++ b) = true) : allWithContext q before a = true :=
+  allWithContext_prefix hsame hcut a b before h
+
+theorem C10pods_prefix_closed (i : SyncIn) (plan : List Fault) (o : SyncObs) (a b : List String)
+    (h : C10pods i plan { o with log := a ++ b } = true) : C10pods i plan { o with log := a } = true :=
+  C10pods_prefix i plan o a b h
+
+theorem C10revs_prefix_closed (i : SyncIn) (o : SyncObs) (a b : List String)
+    (h : C10revs i { o with log := a ++ b } = true) : C10revs i { o with log := a } = true :=
+  C10revs_prefix i o a b h
+
+theorem C10set_prefix_closed (o : SyncObs) (a b : List String)
+    (h : C10set { o with log := a ++ b } = true) : C10set { o with log := a } = true :=
+  C10set_prefix o a b h
+
+/-- C11 (deleting) splits into a log part and a store part; the log part is prefix-closed, the store part is read on the
+    revisions as the crash left them -/
+theorem C11deleting_prefix_closed (i : SyncIn) (o : SyncObs) (a b : List String) (revs' : List RevD)
+    (h : C11deleting i { o with log := a ++ b } = true) (hs : C11deletingStore i revs' = true) :
+    C11deleting i { o with log := a, revs := revs' } = true :=
+  C11deleting_prefix i o a b revs' h hs
+
+theorem C11deletingLog_prefix_closed (a b : List String) (h : C11deletingLog (a ++ b) = true) :
+    C11deletingLog a = true := C11deletingLog_prefix a b h
+
+theorem C11paused_prefix_closed (i : SyncIn) (o : SyncObs) (a b : List String)
+    (h : C11paused i { o with log := a ++ b } = true) : C11paused i { o with log := a } = true :=
+  C11paused_prefix i o a b h
+
+/-- the ownership rules hold of a run cut at any call -/
+theorem crash_keeps_C10 (i : SyncIn) (plan : List Fault) (o : SyncObs) (k : Nat)
+    (hp : C10pods i plan o = true) (hr : C10revs i o = true) (hs : C10set o = true) :
+    C10pods i plan (crashAt k o) = true ∧ C10revs i (crashAt k o) = true ∧ C10set (crashAt k o) = true := by
+  have e : o = { o with log := o.log.take k ++ o.log.drop k } := by simp
+  rw [e] at hp hr hs
+  exact ⟨C10pods_prefix i plan o _ _ hp, C10revs_prefix i o _ _ hr, C10set_prefix o _ _ hs⟩
+
+/-- the annotation (entry, index, fault) of a cut log is the cut annotation: a crash changes no earlier verdict -/
+theorem annotate_prefix (plan : List Fault) (a b : List String) :
+    annotate plan a <+: annotate plan (a ++ b) := by
+  rw [annotate_append]; exact List.prefix_append _ _
+
+/-- the faults that fired before the cut are the same in the cut log, and "benign so far" is inherited -/
+theorem benign_prefix_closed (cx : Cx) (plan : List Fault) (n : Nat) (a b : List String)
+    (h : BenignFrom cx plan n (a ++ b)) : BenignFrom cx plan n a := benignFrom_prefix h
+
+/-- the model's log at the end of each phase is a prefix of the final log: a crash inside a later phase leaves the earlier
+    phases' calls untouched -/
+theorem adopt_log_is_prefix (h : Hashing) (i : SyncIn) (plan : List Fault) (hp : (i.paused || !i.selectorOk) = false)
+    (hok : (adoptOrphanRevisionsF plan i.view.deleting i.fresh { store := i.store }).2 = .ok) :
+    (adoptOrphanRevisionsF plan i.view.deleting i.fresh { store := i.store }).1.tr.log <+: (syncF h i plan).log := by
+  rw [syncF_eq, hp]
+  simp only [Bool.false_eq_true, if_false]
+  rcases has : adoptOrphanRevisionsF plan i.view.deleting i.fresh { store := i.store } with ⟨s, out⟩
+  rw [has] at hok
+  simp only at hok
+  subst hok
+  exact syncAfterAdopt_prefix plan h i s
+
+/-! ## (iv) fault-free: every error is a world reason
+
+`worldReason h i` (a decidable predicate, `Proofs/SY_c_World`) lists what can make a sync fail although nothing is
+injected: (1) an orphan revision or (2) a pod is to be adopted and the uncached read of the set finds it gone / with
+another uid / being deleted; (3) every revision name the hashing offers is taken by a revision recording another template
+(impossible for a hashing that depends on the collision count: `hash_reason_needs_collisions`); (4) a pod name the reconcile
+needs is held by an object that is not its pod of that slot; (5) a pod with a non-canonical name is updated under a
+canonical name nobody holds; (6) the set is gone when its status is written. Listing, label-sync, adoption patches,
+renumbering, the refreshing reads and history truncation never fail without an injected fault. -/
+
+/-- **C09 fault-free**: an `.err` outcome of a sync with the empty plan has a world reason. -/
+theorem fault_free_err_is_world_reason (h : Hashing) (i : SyncIn) (he : (syncF h i []).outcome = .err) :
+    worldReason h i = true :=
+  syncF_nil_err h i he
+
+/-- listing never fails -/
+theorem fault_free_listRevs (s : RevSt) : (listRevsF [] s).2 = some (listRevisions s.store) := by
+  rw [listRevsF_nil]
+
+/-- adoption of orphan revisions fails only for reason (1), and never panics -/
+theorem fault_free_adoptRevisions (del : Bool) (fresh : Fresh) (s : RevSt) :
+    (adoptOrphanRevisionsF [] del fresh s).2 = .ok ∨
+    ((adoptOrphanRevisionsF [] del fresh s).2 = .err ∧ del = false ∧
+      (listRevisions s.store).any (·.owner == .none) = true ∧ freshOk fresh = false) :=
+  adopt_nil del fresh s
+
+/-- claiming fails only for reason (2) -/
+theorem fault_free_claimPods (del : Bool) (fresh : Fresh) (pods : List CPod) (tr : Tr)
+    (hf : (claimPodsF [] del fresh pods tr).failed = true) :
+    freshOk fresh = false ∧ ∃ c ∈ pods, claimDecision del c = .adopt :=
+  claim_nil del fresh pods tr hf
+
+/-- renumbering succeeds at the first attempt -/
+theorem fault_free_renumber (name : String) (n : Int) (fuel : Nat) (s : RevSt) :
+    (renumberF [] name n (fuel + 1) s).2 = true := by
+  rw [renumberF_nil]
+
+/-- `createControllerRevision` fails exactly when every probed name is taken by a revision with other data -/
+theorem fault_free_createRevision (h : Hashing) (fresh : Rev) (fuel : Nat) (cc : Int) (s : RevSt) :
+    (createRevLoopF h [] fresh fuel cc s).2 = none ↔ probeFails h fresh s.store fuel cc = true :=
+  createRevLoopF_nil h fresh fuel cc s
+
+/-- `getStatefulSetRevisions` fails only for reason (3) -/
+theorem fault_free_getRevisions (h : Hashing) (template scr : String) (cc0 : Int) (revs : List Rev) (s : RevSt)
+    (hf : (getRevisionsF h [] template scr cc0 revs s).2 = none) :
+    probeFails h (freshRev h template cc0 revs) s.store (s.store.length + 8) cc0 = true :=
+  getRevisionsF_nil h template scr cc0 revs s hf
+
+/-- reason (3) needs a colliding hashing -/
+theorem hash_reason_needs_collisions (h : Hashing) (fresh : Rev) (store : List Rev) (cc : Int)
+    (hinj : ∀ c1 c2, h.nameOf fresh.data c1 = h.nameOf fresh.data c2 → c1 = c2) :
+    probeFails h fresh store (store.length + 8) cc = false :=
+  probeFails_false_of_injective h fresh store _ cc hinj (by omega)
+
+/-- the reconcile fails only for reasons (4) and (5), at its last action -/
+theorem fault_free_reconcile (v : SetView) (cur upd : String) (ps : List Pod) (setName : String)
+    (pods claimed : List CPod) (b : Int) (E : List Int)
+    (he : (updateStatefulSet v cur upd ps (podFaults setName [] pods claimed b E)).2 = .err) :
+    ∃ l a, (updateStatefulSet v cur upd ps (podFaults setName [] pods claimed b E)).1.acts = l ++ [a] ∧
+      ((∃ o r, a = .create o r ∧ (0, o) ∈ squatOf setName pods claimed b E ∧
+          ∃ c ∈ pods, c.pod.ord = o ∧ c.name = canonicalName setName o) ∨
+       (∃ o, a = .update o ∧ (2, o) ∈ updFaultsOf setName pods claimed b E ∧
+          ∃ c, occupantAt claimed b E o = some c ∧ c.name ≠ canonicalName setName o ∧
+            pods.any (·.name == canonicalName setName o) = false)) :=
+  reconcile_nil_err v cur upd ps setName pods claimed b E he
+
+/-- the status write fails exactly for reason (6) -/
+theorem fault_free_statusWrite (gone : Bool) (fuel : Nat) (t : Tr) :
+    (statusWriteF [] gone (fuel + 1) t).2 = !gone := by
+  rw [statusWriteF_nil]
+
+/-- history truncation does not fail: the listing has pairwise different names and whatever was listed is still stored -/
+theorem fault_free_truncate (limit : Option Int) (podRevs : List String) (revs : List Rev) (cur upd : Rev) (s : RevSt)
+    (hnd : (revs.map (·.name)).Nodup) (hin : ∀ r ∈ revs, s.store.any (·.name == r.name) = true) :
+    (truncateF [] limit podRevs revs cur upd s).2 ≠ .err :=
+  truncateF_nil limit podRevs revs cur upd s hnd hin
+
+/-- the listing the sync works with has pairwise different names -/
+theorem listing_names_distinct (store : List Rev) : ((sortRevs (listRevisions store)).map (·.name)).Nodup :=
+  sortRevs_nodup store
+
+/-! ## non-vacuity -/
+
+private def exH : Hashing := { nameOf := fun _ _ => "web-abc", hashNumOf := fun _ _ => none }
+private def exV : SetView :=
+  { replicas := some 0, slots := [], parallel := false, strat := .rolling, ru := none, deleting := false,
+    generation := 1, stCurrentReplicas := 1 }
+private def exR : Rev :=
+  { name := "web-r1", number := 1, ctime := 0, data := "t", hashNum := Option.none, owner := Owner.self,
+    selMatch := true, marker := false }
+private def exP : CPod :=
+  { name := "web-x", owner := Owner.self, selMatch := false, member := false,
+    pod := { id := 0, ord := -1, phase := .running, ready := true, terminating := false, rev := "web-r1",
+             idOk := true, stOk := true } }
+private def exI : SyncIn :=
+  { setName := "web", paused := false, selectorOk := true, view := exV,
+    stored := { replicas := 0, currentRev := "web-r1", updateRev := "web-r1" }, collisionCount := Option.none,
+    historyLimit := some 10, template := "t", fresh := { gone := false, uidOk := true, deleting := false },
+    store := [exR], pods := [exP] }
+/-- the release patch of `web-x` answers NotFound (benign), the first status write answers Conflict (benign) -/
+private def exPlan : List Fault :=
+  [{ key := "patch:pod:web-x", occ := 0, kind := .notFound }, { key := "updatestatus", occ := 0, kind := .conflict }]
+/-- the same with a server error on the release patch -/
+private def exPlanBad : List Fault := [{ key := "patch:pod:web-x", occ := 0, kind := .other }]
+
+example : NamesOk exH exI :=
+  { pods := by decide, nodup := by decide, store := by decide, hash := fun _ _ => (by decide : ColonFree "web-abc") }
+
+private theorem podCtlFree_of (plan : List Fault)
+    (hk : ∀ f ∈ plan, f.key.toList.take 7 ≠ "create:".toList ∧ f.key.toList.take 7 ≠ "delete:".toList ∧
+      f.key.toList.take 7 ≠ "update:".toList) : PodCtlFree plan := by
+  intro f hf ⟨nm, hkey⟩
+  obtain ⟨h1, h2, h3⟩ := hk f hf
+  rcases hkey with e | e | e
+  · apply h1; rw [e]; simp [kCreatePod, toString, String.toList_append]
+  · apply h2; rw [e]; simp [kDeletePod, toString, String.toList_append]
+  · apply h3; rw [e]; simp [kUpdatePod, toString, String.toList_append]
+
+example : PodCtlFree exPlan := podCtlFree_of _ (by decide)
+example : PodCtlFree exPlanBad := podCtlFree_of _ (by decide)
+
+/-- with the two benign failures the sync still succeeds (evaluated by the kernel) … -/
+example : (syncF exH exI exPlan).outcome = .ok ∧
+    (syncF exH exI exPlan).log =
+      ["list:revs", "list:revs", "patch:pod:web-x", "list:revs", "list:revs", "updatestatus", "updatestatus"] := by
+  decide +kernel
+/-- … both fired … -/
+example : events exPlan (syncF exH exI exPlan).log =
+    [("list:revs", none), ("list:revs", none), ("patch:pod:web-x", some .notFound), ("list:revs", none),
+     ("list:revs", none), ("updatestatus", some .conflict), ("updatestatus", none)] := by
+  decide +kernel
+/-- … and the monitor accepts the run (by the theorem; `splitOn` does not evaluate in the kernel) -/
+example : C09reported exI exPlan (syncF exH exI exPlan).observe = true :=
+  C09_reported exH exI exPlan
+    { pods := by decide, nodup := by decide, store := by decide, hash := fun _ _ => (by decide : ColonFree "web-abc") }
+    (podCtlFree_of _ (by decide))
+/-- a server error on the same patch is reported -/
+example : (syncF exH exI exPlanBad).outcome = .err := by decide +kernel
+/-- fault-free the example world has no world reason, and one appears when the set is gone -/
+example : (syncF exH exI []).outcome = .ok := by decide +kernel
+example : (syncF exH { exI with fresh := { gone := true, uidOk := false, deleting := false } } []).outcome = .err ∧
+    worldReason exH { exI with fresh := { gone := true, uidOk := false, deleting := false } } = true := by
+  decide +kernel
+
+/-! ## why `PodCtlFree`: two evaluated counterexamples to the unrestricted headline (gaps of the MODEL, not of the code)
+
+`podFaults` turns a plan entry on a pod-control key into a reconcile-level fault only if its occurrence number is 0 and it can
+recover the ordinal from the name (a pod of that name in the snapshot, or an ordinal below 64). Otherwise the model lets the
+call succeed while `annotate` — and the real code — see the fault; `C09reported` is then `false` on the model's own output.
+On the real code both cases return an error (the failure IS reported): `tools/difftool.sh sync <file>` shows `diff 1`,
+`impl … out=err` against `model … out=ok`. The generator never produces such plans (it injects at occurrence 0 of calls that
+occur), which is why the engines report `diff 0`.
+
+(a) second occurrence of a pod-control key — Parallel, RollingUpdate without block, `status.currentReplicas = 1`; the Failed
+    pod `web-0` is deleted and re-created at the current revision, and the update walk deletes the new object again
+    (`delete:pod:web-0` twice in one reconcile); the plan fails the second delete:
+0|1|1||P|R|none|0|1|1,1,1,0,web-old1,web-8459b68574,1|nil|10|B|1|0|web-8459b68574:2:1:B:8459b68574:s:1:0;web-old1:1:0:X:646b485b7b:s:1:0|web-0:0:1:F:0:0:web-old1:1:s:1|B:0=web-8459b68574:-,B:1=web-8459b68575:-,B:2=web-8459b6856d:-,B:3=web-8459b6856f:-,B:4=web-8459b68578:-,B:5=web-8459b68579:-|delete:pod:web-0@1@other
+(b) ordinal ≥ 64 with no pod of that name — replicas 1, delete-slots 0..69, so the one pod is `web-70`; the plan fails its create:
+0|1|1|0,1,…,69|P|R|none|0|1|0,0,0,0,web-8459b68574,web-8459b68574,1|nil|10|B|1|0|web-8459b68574:2:1:B:8459b68574:s:1:0||B:0=web-8459b68574:-,…|create:pod:web-70@0@other
+In Lean: `C09reported ii pl (syncF hh ii pl).observe = false` with `(syncF hh ii pl).outcome = .ok` for the corresponding
+`SyncIn` (evaluated with `#eval`). -/
 
 end Asts.C09
